@@ -29,19 +29,30 @@ TRUSTED = [
     "modelled by hand: llsd._format_binary_recurse/format_binary/parse_binary/HippoLLSDBinaryParser + "
     "llsd.serde_binary.LLSDBinaryParser (_parse, _parse_map, _parse_array, _parse_string_raw) + llsd.base "
     "(_peek/_getc/_parse_string_delim/_hex_as_nybble); HippoLLSDNotationFormatter/LLSDNotationFormatter "
-    "(all type handlers); LLSDNotationParser._parse_string for quote-delimited strings (the s(size) form is not modelled)",
+    "(all type handlers); llsd.serde_notation.LLSDNotationParser (parse, _parse, _parse_map, _parse_array, all scalar "
+    "parsers, the extents of _int_regex/_real_regex/_true_regex/_false_regex, _get_until)",
+    "the notation parser model is a partial function refined by the implementation (Some = the implementation returns "
+    "exactly this, None = parse error or outside the model); outside the model, never emitted by the formatter: the sized "
+    "forms s(size)'..' and b(size)\"..\", UUID spellings other than 8-4-4-4-12 hex digits, non-canonical base64/base16 "
+    "text, a missing closing quote after b64\"; on mutated notation text the correspondence is therefore one-sided "
+    "(wherever the model is defined the implementation must agree), on formatter output it is exact",
     "abstraction: str/uri = their UTF-8 bytes (bytes.decode('utf-8') strictness is modelled by utf8_valid and "
     "compared with CPython on every case), float = its 64 IEEE bits (struct '!d'), datetime = the 64 bits of its POSIX "
-    "timestamp; datetime.timestamp()/fromtimestamp()/isoformat() and repr(float) are CPython library functions, "
-    "not modelled: the notation model takes repr(float) and _format_datestr() as tables supplied by the harness, "
-    "and the date<->timestamp step is covered by the impl-level oracle (incl. three process time zones)",
-    "the notation *parser* is modelled for strings only (escape machine); scalar/array/map notation parsing, "
+    "timestamp; datetime.timestamp()/fromtimestamp()/isoformat(), repr(float)/float(text) and llsd._format_datestr/"
+    "_parse_datestr are library functions, not modelled: the notation model takes them as oracle functions "
+    "(rreal/preal/rdate/pdate), tabulated by the harness from the live library for every case; the notation theorem "
+    "assumes (a) _real_regex matches exactly repr(x) before a separator and the date string is plain ASCII - both checked "
+    "on every rendering met - and (b) per value float(repr(x)) = x and _parse_datestr(_format_datestr(d)) = d, the latter "
+    "being false for the recorded microsecond-truncation finding; the date<->timestamp step is covered by the impl-level "
+    "oracle (incl. three process time zones)",
     "XML (llsd.serde_xml + expat) and zlib are third-party oracles: those legs are covered by the impl-level "
-    "round-trip oracle only (partial)",
+    "round-trip oracle only (partial; C12_zip_roundtrip assumes zlib lossless)",
     "message<->LLSD: the per-variable packing table (LLSDDataPacker.SPECS + pass-through) is modelled (LlsdMsg.v) and "
     "proved to round-trip for the dict form; template lookup (_yield_vars), Message.to_dict/from_dict, Quaternion's "
     "derived W, socket.inet_aton/ntoa and the XML form are covered by the impl-level oracle over template-generated "
     "messages of every type only (partial)",
+    "the binary model's flag ut (URI written with its own tag) is set from a probe of the live formatter (uri_tagged); "
+    "the headline theorems are stated for ut = true, the code as it stands",
     "lengths >= 2^31 (struct.error in the formatter) are in the model (bin_ok) but cannot be exercised",
 ]
 
@@ -571,7 +582,8 @@ def check_tree(m, fmt, v):
 
 
 def classify(m, fmt, v):
-    """stable defect class of a failing tree (used to match known findings)"""
+    """stable defect class of a failing tree (used to match known findings).  Open: date-microseconds-truncated-*.
+    The uri-... and aware-... classes name regressions of repaired defects (fixes 22af88d, 698322b)."""
     def ok(w):
         try:
             return same(m, w, roundtrip(m, fmt, w)) is None
